@@ -211,6 +211,7 @@ func runC03(s c03Scen, c *ev.Case) *ev.Violation {
 	defer b.Stop()
 	r := &c03Run{}
 	limits := map[int]int{}
+	var conns []*fixture.Client
 	connect := func(rm int, first bool) *ev.Violation {
 		o := fixture.ConnectOpts{ID: "S", V: ver(s.V), CleanStart: false}
 		if s.V == 5 {
@@ -224,6 +225,7 @@ func runC03(s c03Scen, c *ev.Case) *ev.Violation {
 			return harnessErr("dial: %v", err)
 		}
 		cl := fixture.NewClient(conn, "S", ver(s.V))
+		conns = append(conns, cl)
 		r.mu.Lock()
 		r.epoch++
 		lim := s.MI
@@ -398,6 +400,11 @@ func runC03(s c03Scen, c *ev.Case) *ev.Violation {
 	}
 	r.settle(20)
 
+	for _, cl := range conns {
+		if v := malformedFromBroker("C03", cl); v != nil {
+			return v
+		}
+	}
 	// ---- oracle over the event log ----
 	r.mu.Lock()
 	events := append([]c03Event(nil), r.events...)
